@@ -324,8 +324,8 @@ def run(chk: Check):
                 bvs = py_basis(len(ms), c)
                 for bv in (bvs if (T or len(bvs) <= 4) else rng.sample(bvs, 4)):
                     proj_cases.append([d, c, ms, list(bv)])
-    if not T:
-        proj_cases = rng.sample(proj_cases, min(len(proj_cases), 200 if MINI else 2500))
+    # thorough enumerates 51 269 (modes, outcome) pairs: a seeded sample of 8 000 keeps the tier near 30 min
+    proj_cases = rng.sample(proj_cases, min(len(proj_cases), 8000 if T else 200 if MINI else 2500))
     aux_cases = [[d, ms] for d in range(1, 7) for ms in ordered_subsets(d, 3)]
     # gather/scatter application with small integer data (exact in float64)
     apply_cases = []
@@ -414,7 +414,7 @@ def run(chk: Check):
     for c, r in zip(apply_cases, impl["apply"]):
         if any(abs(v - round(v)) > 1e-9 for v in r):
             corr_broken.append("apply: non-integer result on integer data at %s" % c[:3])
-    outs = coq_eval_parallel("c16_%d" % os.getpid(), bodies, jobs=4)  # pid: concurrent runs must not share case files
+    outs = coq_eval_parallel("c16_%d" % os.getpid(), bodies, jobs=8 if T else 4)  # pid: concurrent runs must not share case files
     counts = {}
     for (kind, i, cs), o in zip(owners, outs):
         g = parse_coq_list(o)
@@ -479,6 +479,10 @@ def run(chk: Check):
                           {"d": d, "cutoff": c, "modes": ms})
     chk.stream("index lists: partition of range(dim) and entry formula, directly on the implementation",
                neval, sum(1 for d, c, ms in il_cases if c >= 2 and ms != sorted(ms)), kind="search")
+
+    for sw in ("C16_SIMS", "C16_MINI"):
+        if os.environ.get(sw):
+            corr_broken.append("development switch %s is set: ranges are reduced, this run decides nothing" % sw)
 
     # ---------------- search 2: relabelling / commutation on every simulator
     judge_program_runs(chk, prog_cases, prog_meta, impl["programs"])
@@ -661,7 +665,11 @@ def judge_program_runs(chk, cases, meta, results):
             continue
         nontriv[key] = nontriv.get(key, 0) + 1
         problem = None
-        if "state" in rb and "state" in rv:
+        # after a measurement the surviving state lives on fewer modes (and relabelling permutes
+        # which ones): final states are compared only for programs without a measurement,
+        # measured programs through their exact branch frequencies
+        measured = any(g == "PNM" for g, _, _ in cases[base]["instrs"])
+        if "state" in rb and "state" in rv and not measured:
             a = as_arrays(sim, rb["state"])
             if kind.startswith("relabel"):
                 b = unrelabel_state(sim, d, cutoff, rv["state"], extra)
